@@ -45,6 +45,7 @@ type drv struct {
 	ent    int64
 	keeper bool
 	donate bool
+	exact  bool // block times land exactly on unstaking completion times (C24)
 }
 
 func (d *drv) entropy() int64 { d.ent++; return d.ent }
@@ -240,6 +241,9 @@ func (d *drv) genOp(v view) op {
 			key, val = "application/StabilityAdjustment", []int64{0, 5, 1000}[r.Intn(3)]
 		case 7:
 			key, val = "application/AppUnstakingTime", time.Duration([]int64{int64(time.Minute), int64(time.Hour), int64(90 * time.Minute)}[r.Intn(3)])
+			if d.exact && r.Chance(1, 3) {
+				val = time.Duration(0)
+			}
 		default:
 			key, val = "application/ParticipationRateOn", r.Bool()
 		}
@@ -299,6 +303,9 @@ func (d *drv) history(blocks int, maxApps int64, breadth bool) {
 	o.Mutate = func(g *chain.Genesis) {
 		g.Apps.Params.MaxApplications = maxApps
 		g.Apps.Params.UnstakingTime = time.Hour
+		if d.exact {
+			g.Apps.Params.UnstakingTime = []time.Duration{0, time.Minute, 30 * time.Minute, time.Hour}[d.r.Intn(4)]
+		}
 		g.Apps.Params.MaxChains = 3
 		g.Apps.Params.AppStakeMin = 1000000
 	}
@@ -338,7 +345,12 @@ func (d *drv) history(blocks int, maxApps int64, breadth bool) {
 			d.t.Line("end", false, "end => %s", d.state())
 			continue
 		}
-		tm = tm.Add([]time.Duration{time.Second, 10 * time.Minute, 31 * time.Minute, time.Hour, 2 * time.Hour}[r.Intn(5)])
+		if d.exact {
+			// whole minutes only: sums of steps hit completion times (begin time + 0 / 1m / 30m / 1h / 90m) to the nanosecond
+			tm = tm.Add([]time.Duration{time.Minute, time.Minute, 29 * time.Minute, 30 * time.Minute, time.Hour}[r.Intn(5)])
+		} else {
+			tm = tm.Add([]time.Duration{time.Second, 10 * time.Minute, 31 * time.Minute, time.Hour, 2 * time.Hour}[r.Intn(5)])
+		}
 		v := d.look()
 		nops := r.Intn(5)
 		var ops []op
@@ -373,9 +385,10 @@ func main() {
 	blocks := flag.Int("blocks", 40, "blocks per history")
 	keeper := flag.Bool("keeper", true, "include keeper-level jail / force-unstake calls")
 	breadth := flag.Bool("breadth", true, "mix in blocks of the shared generator")
+	exact := flag.Bool("exact", false, "C24 bias: block-time steps and AppUnstakingTime chosen so that block times land exactly on completion times (multiples of one minute, and unstaking time 0)")
 	donate := flag.Int("donate", 4, "one history in this many contains sends to the pool's module address (0 = none)")
 	flag.Parse()
-	d := &drv{r: gen.New(*seed), t: gen.NewTrace(*out), keeper: *keeper}
+	d := &drv{r: gen.New(*seed), t: gen.NewTrace(*out), keeper: *keeper, exact: *exact}
 	hist := 0
 	for d.t.Lines < *n {
 		maxApps := []int64{4, 5, 6, 3, 1000}[d.r.Intn(5)]
